@@ -89,6 +89,17 @@ func (e *Exec) solverAlive() {
 
 func (e *Exec) replaying() bool { return e.pos < len(e.prefix) }
 
+// forkBudget bounds the alternatives one path may schedule and the length of
+// its decision trace: a loop whose trip count is a symbolic 16-bit value forks
+// at every iteration and each alternative copies the whole trace (quadratic
+// memory). Beyond the bound the path ends as "truncated" — an inconclusive
+// outcome, never an out-of-memory kill.
+func (e *Exec) forkBudget() {
+	if len(e.res.Forks) > 3000 || len(e.trace) > 200000 {
+		e.abort("truncated", "more than 3000 alternatives scheduled by one path (or a trace of more than 200000 decisions) at %s", e.where())
+	}
+}
+
 // ---- path condition ----
 
 func (e *Exec) commit(c sym.Sc, val bool, emit bool) {
@@ -156,6 +167,7 @@ func (e *Exec) Branch(c sym.Sc) bool {
 	tOK, fOK := rt != sym.Unsat, rf != sym.Unsat
 	switch {
 	case tOK && fOK:
+		e.forkBudget()
 		alt := append(append([]Dec{}, e.trace...), Dec{Kind: 'b', Val: 0})
 		e.res.Forks = append(e.res.Forks, alt)
 		e.trace = append(e.trace, Dec{Kind: 'b', Val: 1})
